@@ -273,7 +273,10 @@ Definition api_set (now : Z) (ds : list db) (i : Z) (k v : bytes) (ttl : option 
   | Some d => Some (set_dbi ds i (set_value now d k (VStr v) ttl))
   | None => None
   end.
+(** zadd refuses a NaN score before anything else (engine.rs, after the repair of the
+    NaN-node defect) *)
 Definition api_zadd (ds : list db) (i : Z) (k m : bytes) (sc : Z) : option (list db) :=
+  if f_nan sc then None else
   match get_dbi ds i with
   | Some d =>
       match get_entry d k with
@@ -284,11 +287,6 @@ Definition api_zadd (ds : list db) (i : Z) (k m : bytes) (sc : Z) : option (list
       | None => Some (set_dbi ds i (new_key d k (VZSet [(m, sc)])))
       end
   | None => None
-  end.
-Fixpoint api_zadd_all (ds : list db) (i : Z) (k : bytes) (l : list (bytes * Z)) : option (list db) :=
-  match l with
-  | [] => Some ds
-  | (m, sc) :: r => match api_zadd ds i k m sc with Some ds' => api_zadd_all ds' i k r | None => None end
   end.
 (** rpush of one or more elements *)
 Definition api_rpush (ds : list db) (i : Z) (k : bytes) (els : list bytes) : option (list db) :=
@@ -426,27 +424,29 @@ Fixpoint load_stream (chk : bool) (fuel : nat) (ds : list db) (i : Z) (k : bytes
 Definition lift_api {A} (a : A) (s : rd) (ds : list db) (r : option (list db)) : step A :=
   match r with Some ds' => SOk a s ds' | None => SErr s ds end.
 
-Fixpoint read_zitems (fuel : nat) (n : Z) (acc : list (bytes * Z)) : rd -> rres (list (bytes * Z)) :=
-  if n <=? 0 then ret (frev acc) else
+(** the sorted-set loop: [for _ in 0..count { member; score; storage.zadd(..)? }] - any zadd
+    can fail (invalid database or wrong type at the first item, a NaN score at any item) and
+    the loader returns there, keeping what was inserted before *)
+Fixpoint load_zitems (fuel : nat) (n : Z) (ds : list db) (i : Z) (k : bytes) (s : rd) : step unit :=
+  if n <=? 0 then SOk tt s ds else
   match fuel with
-  | O => fail
-  | S f => m <- read_string ;; sc <- read_u64_le ;; read_zitems f (n - 1) ((m, sc) :: acc)
+  | O => SErr s ds
+  | S f =>
+    match read_string s with
+    | (None, s1) => SErr s1 ds
+    | (Some m, s1) =>
+      match read_u64_le s1 with
+      | (None, s2) => SErr s2 ds
+      | (Some sc, s2) =>
+        match api_zadd ds i k m sc with
+        | None => SErr s2 ds
+        | Some ds' => load_zitems f (n - 1) ds' i k s2
+        end
+      end
+    end
   end.
-(** the elements read before a short read have already been inserted: the same loops,
+(** the elements read before a short read have already been inserted: the same loop,
     returning what was read together with the failure *)
-Fixpoint read_zitems_partial (fuel : nat) (n : Z) (acc : list (bytes * Z)) (s : rd)
-  : list (bytes * Z) * bool * rd :=
-  if n <=? 0 then (frev acc, true, s) else
-  match fuel with
-  | O => (frev acc, false, s)
-  | S f => match read_string s with
-           | (None, s1) => (frev acc, false, s1)
-           | (Some m, s1) => match read_u64_le s1 with
-                             | (None, s2) => (frev acc, false, s2)
-                             | (Some sc, s2) => read_zitems_partial f (n - 1) ((m, sc) :: acc) s2
-                             end
-           end
-  end.
 Fixpoint read_strings_partial (fuel : nat) (n : Z) (acc : list bytes) (s : rd)
   : list bytes * bool * rd :=
   if n <=? 0 then (frev acc, true, s) else
@@ -477,28 +477,9 @@ Definition load_kv (chk : bool) (now : Z) (ds : list db) (i : Z) (vt : Z) (ttl :
       match read_length s1 with
       | (None, s2) => SErr s2 ds
       | (Some n, s2) =>
-        (* the first zadd is the only one that can fail (invalid database, wrong type): the
-           loader returns there without reading any further *)
-        if n <=? 0 then lift_api tt s2 ds (api_expire_opt now ds i k ttl) else
-        match read_string s2 with
-        | (None, s3) => SErr s3 ds
-        | (Some m, s3) =>
-          match read_u64_le s3 with
-          | (None, s4) => SErr s4 ds
-          | (Some sc, s4) =>
-            match api_zadd ds i k m sc with
-            | None => SErr s4 ds
-            | Some ds0 =>
-              match read_zitems_partial fuel (n - 1) [] s4 with
-              | (items, ok, s5) =>
-                match api_zadd_all ds0 i k items with
-                | None => SErr s5 ds0
-                | Some ds1 =>
-                    if ok then lift_api tt s5 ds1 (api_expire_opt now ds1 i k ttl) else SErr s5 ds1
-                end
-              end
-            end
-          end
+        match load_zitems fuel n ds i k s2 with
+        | SOk _ s3 ds1 => lift_api tt s3 ds1 (api_expire_opt now ds1 i k ttl)
+        | r => r
         end
       end
     end
@@ -727,7 +708,7 @@ Definition value_ok (v : value) : bool :=
                && match l with [] => false | h :: _ => negb (beq h marker) end
   | VSet s => lt32 (len s) && forallb str_ok s && nodupb s
   | VHash h => lt32 (len h) && forallb pair_ok h && nodupb (map fst h)
-  | VZSet z => lt32 (len z) && forallb (fun p => str_ok (fst p) && u64b (snd p)) z
+  | VZSet z => lt32 (len z) && forallb (fun p => str_ok (fst p) && u64b (snd p) && negb (f_nan (snd p))) z
                && negb (len z =? 0) && zs_canonical z
   | VStream s => lt32 (stream_items (s_entries s)) && negb (len (s_entries s) =? 0)
                  && sids_ok (0, 0) (s_entries s) && forallb sentry_ok (s_entries s)
